@@ -554,9 +554,13 @@ impl Catalog {
         let relation_id_bytes = UInt64(relation_id).serialize()?;
         let mut changes = std::collections::HashMap::new();
 
+        // The row id counter is bookkeeping, not versioned data: it is written into the newest
+        // version in place (every insert used to add a version, and a catalog row that outgrows
+        // its page cell after a few dozen inserts makes the table unusable).
+        let mut row_id_in_place = None;
         if let Some(id) = new_row_id {
             let col_id = schema.bind_value("next_row_id")?;
-            changes.insert(col_id, DataType::BigUInt(UInt64::from(id)));
+            row_id_in_place = Some((col_id, DataType::BigUInt(UInt64::from(id))));
         }
 
         if let Some(table_schema) = new_schema {
@@ -585,6 +589,11 @@ impl Catalog {
             return Ok(());
         };
 
+        if let Some((col_id, value)) = row_id_in_place
+            && !tuple.overwrite_value_with(col_id, &value, &schema)?
+        {
+            changes.insert(col_id, value);
+        }
         tuple.add_version_with(&changes, snapshot.xid(), &schema)?;
         let result = meta_table.update(self.meta_table, tuple, &schema)?;
 
